@@ -571,8 +571,38 @@ fn fault_phase(cx: &mut Case<'_>, tier: &mut Tier, root: &Path, model: &BTreeMap
             faults.push(("swapped-with-other-blob".into(), Some(model[other].clone())));
         }
         faults.push(("delete-file".into(), None));
+        // silent media corruption: same-length damage written IN PLACE with the file's
+        // modification time restored (what bit rot looks like to anything that trusts
+        // length/mtime), on a tier instance that has already read and verified the blob
+        let same_len: Vec<(String, Option<Vec<u8>>)> = faults
+            .iter()
+            .filter(|(_, c)| c.as_ref().is_some_and(|c| c.len() == l && l > 0))
+            .map(|(n, c)| (format!("{}+in-place-mtime-preserved", n.replace('@', "-")), c.clone()))
+            .collect();
+        faults.extend(same_len);
         for (fname, new) in &faults {
+            let in_place = fname.ends_with("+in-place-mtime-preserved");
             let ok = match new {
+                Some(c) if in_place => {
+                    let _ = tier.get(&key); // the instance has hashed this blob at its current stamp
+                    let _ = tier.has(&key);
+                    (|| -> std::io::Result<()> {
+                        use std::io::{Seek, SeekFrom, Write};
+                        let mtime = std::fs::metadata(&abs)?.modified()?;
+                        let mut f = std::fs::OpenOptions::new().write(true).open(&abs)?;
+                        f.seek(SeekFrom::Start(0))?;
+                        f.write_all(c)?;
+                        f.flush()?;
+                        f.set_modified(mtime)?;
+                        drop(f);
+                        // belt and braces: some filesystems bump mtime again on close
+                        let f = std::fs::OpenOptions::new().write(true).open(&abs)?;
+                        f.set_modified(mtime)?;
+                        Ok(())
+                    })()
+                    .is_ok()
+                        && std::fs::metadata(&abs).is_ok_and(|m| m.len() == l as u64)
+                }
                 Some(c) => std::fs::write(&abs, c).is_ok(),
                 None => std::fs::remove_file(&abs).is_ok(),
             };
